@@ -31,7 +31,7 @@ pub const C38: Check = Check {
     assumptions: &["rsync's own --max-size handling is outside this check (custom rsync-args are used)"],
     shards: |_| 8,
     watchdog: |t| Duration::from_secs(t.pick(600, 3600)),
-    budget: |t| Duration::from_secs(t.pick(45, 600)),
+    budget: |t| Duration::from_secs(t.pick(45, 300)),
     run: run_c38,
     crash_is_violation: false,
     finish: None,
@@ -169,7 +169,7 @@ pub const C31: Check = Check {
     assumptions: &["host forms that rpki's URI parser rejects cannot appear in a certificate the validator accepts and are skipped (counted)"],
     shards: |_| 8,
     watchdog: |t| Duration::from_secs(t.pick(600, 3600)),
-    budget: |t| Duration::from_secs(t.pick(45, 600)),
+    budget: |t| Duration::from_secs(t.pick(45, 300)),
     run: run_c31,
     crash_is_violation: false,
     finish: None,
@@ -322,7 +322,7 @@ pub const C29: Check = Check {
     assumptions: &["'expired' is produced by moving the virtual wall clock beyond refresh/rrdp-fallback-time after a successful update"],
     shards: |_| 8,
     watchdog: |t| Duration::from_secs(t.pick(600, 3600)),
-    budget: |t| Duration::from_secs(t.pick(60, 600)),
+    budget: |t| Duration::from_secs(t.pick(60, 300)),
     run: run_c29,
     crash_is_violation: false,
     finish: Some(finish_c29),
